@@ -253,19 +253,29 @@ class NPProxy:
             pass
         return dtype
 
+    @staticmethod
+    def _explicit_object(dtype):
+        return dtype is object or dtype == 'object' or dtype == 'O'
+
     def zeros(self, shape, dtype=None):
+        if self._explicit_object(dtype):
+            return _np.zeros(shape, dtype=object)
         a = _np.zeros(shape, dtype=self._dt(dtype))
         if a.dtype == object:
             a[...] = 0.0
         return a
 
     def empty(self, shape, dtype=None):
+        if self._explicit_object(dtype):
+            return _np.empty(shape, dtype=object)
         a = _np.empty(shape, dtype=self._dt(dtype))
         if a.dtype == object:
             a[...] = 0.0
         return a
 
     def ones(self, shape, dtype=None):
+        if self._explicit_object(dtype):
+            return _np.ones(shape, dtype=object)
         a = _np.ones(shape, dtype=self._dt(dtype))
         if a.dtype == object:
             a[...] = 1.0
